@@ -43,6 +43,9 @@ JOBS = [
 # the timed-lock half of C20 is under contract in the mutex unit (same protocol word): part of this check
 import units.c04 as _c04
 JOBS += [j for j in _c04.JOBS if j.name in ("c04.timedlock", "c04.trylock")]
+# the public API functions are one-line forwarders to the bodies under contract: checked mechanically (DESIGN §3.5b)
+from units.common_forward import forward_job
+JOBS = list(JOBS) + [forward_job("c20")]
 META = {
  "level": "proof",
  "level_text": "Contracts enforced on the real bodies of myth_timespec_add, myth_timespec_gt, myth_nanosleep_body and myth_timedjoin_body (polling loops closed by loop contracts, so any number of clock readings), myth_usleep_body / myth_sleep_body checked against the proved nanosleep contract, hr_gettime and myth_yield_body against their callees; for all requests, deadlines and clock behaviours (ghost clock: monotone, otherwise arbitrary). The exact nanosecond part of the usleep conversion is a bounded stand-in (usec < 2^26) in the quick tier and complete (all 2^32 values, kissat) in the thorough tier.",
